@@ -135,6 +135,7 @@ pub struct Machine {
     pub steps: usize,
     pub budget: usize,
     cont: Option<Pos>,
+    cont_open: bool,
     direct: Vec<Flat>,
     pub flags: Flags,
     pub hits: Hits,
@@ -183,6 +184,7 @@ impl Machine {
             steps: 0,
             budget: 200_000,
             cont: None,
+            cont_open: false,
             direct: vec![],
             flags: Flags::default(),
             hits: Hits::default(),
@@ -573,12 +575,17 @@ impl Machine {
                 Ctl::End => {
                     if pos.line.is_some() {
                         self.cont = self.next_coded(next);
+                        // an END inside an IF arm that closes the program: undocumented, as for STOP
+                        self.cont_open = self.cont.is_none() && pos.idx > 0;
                     }
                     return Halt::Done;
                 }
                 Ctl::Stop => {
                     if pos.line.is_some() {
                         self.cont = self.next_coded(next);
+                        // a STOP that is the very last statement: whether CONT then ends the
+                        // program silently or cannot continue is not documented
+                        self.cont_open = self.cont.is_none();
                     }
                     self.fresh_line();
                     let text = match here {
@@ -1023,6 +1030,10 @@ impl Machine {
                     return Err(Fault::Code(BErr::CantContinue));
                 }
                 match self.cont.take() {
+                    None if self.cont_open => {
+                        self.undefined = Some("CONT after a STOP that ends the program");
+                        Ok(Ctl::Halt)
+                    }
                     None => Err(Fault::Code(BErr::CantContinue)),
                     Some(p) => {
                         self.hits.stop_cont += 1;
